@@ -70,6 +70,14 @@ CHECKS = {
    technique="runtime monitor: lock-step executable reference model (SpecVM) over recorded histories at the API boundary (recording resource, live State/Cache objects, decoded stored snapshot), this property's projection only (continue flag, final output, restart position, cache emptiness, client flags, blocked requests)",
    text='Applications with both kinds of end nodes, TERMINATE-setting functions and CROAK are driven past the end of the session over several end/restart cycles on mem, fs and the Postgres fake; graceful ends must deliver page+exit value and restart at the entry node with an empty cache and the client flags kept; terminated sessions must stay silent until the flag is cleared.',
    note="Trusted base: the SpecVM model (harness/specvm) written from doc/texinfo and the property statements; don't-care where they are silent (state after a failed request, internal flags, paginated pages). Histories are PRNG-determined; held-on-observed only."),
+ "C10": dict(engine="refstore", category="exploration", design="§3 C10",
+   technique="runtime monitor: lock-step reference map over recorded store operations, the same sequence applied to mem, fs, fs-binary and the Postgres driver fake (each compared with the model and thereby with each other), including resource.DbResource getters and fs listings",
+   text="PRNG sequences of Put/Get/SetPrefix/SetSession/SetLanguage/SetLock(seal)/Dump and DbResource lookups over well-formed keys (including the letters that double as fs type characters), dot-free session ids, text/binary/empty values and all six data types are applied to a reference map and to four backends; reads, not-found recognition, language fallback, lock refusal, sealing, the resource's refusal of unlocked stores and prefix listings must agree with the model.",
+   note="Trusted: the reference map; pgfake for Postgres. Listings are compared for types without language scope. One recorded finding (empty session lists all sessions)."),
+ "C11": dict(engine="refstore", category="exploration", design="§3 C11",
+   technique="runtime monitor: exhaustive ordered-pair isolation probes by bit-indexed write/read rounds with unique values over an adversarial address alphabet on four backends, each hit confirmed by an isolated two-address probe and attributed to a mechanism computed from the two addresses",
+   text="All ordered pairs of different (type, session, key) addresses from an adversarial alphabet (3456 addresses quick, ~22000 thorough) are covered on mem, fs, fs-binary and the Postgres fake with 2*log2(n) rounds per backend: a written address must return its own value, an unwritten one nothing, an fs listing only its own session's records. A confusion through any mechanism other than the recorded ones (separator ambiguity of sid.key; legacy file-name fallback for resource types) is a new violation.",
+   note="Addresses whose Put fails count as not accepted by the backend. Mechanism attribution is computed by the harness from the two addresses only."),
 }
 NOT_YET = {}
 ALL = ["C%02d" % i for i in range(1, 21)]
